@@ -67,18 +67,24 @@ NasRegAccept(ch) ==
                   OptIf(ch.optIEs >= 2, 22, <<44>>) >>))
 NasCfgUpdate(ch) ==
    Mk5GMM("ConfigurationUpdateCommand", <<>>, Opts(<< OptIf(ch.optIEs >= 1, 208, <<1>>), OptIf(ch.optIEs >= 2, 67, <<128, 65, 66>>) >>))
-\* PDU SESSION ESTABLISHMENT ACCEPT (8.3.2) with an IPv4 PDU address
-NasPduAccept(ch, psi, pti) ==
+\* PDU SESSION ESTABLISHMENT ACCEPT (8.3.2) with an IPv4 PDU address; ies = the set of optional IEIs to include besides the
+\* PDU address (89 5GSM cause, 86 RQ timer, 34 S-NSSAI, 128 always-on indication, 117 mapped EPS bearer contexts, 120 EAP message,
+\* 121 authorized QoS flow descriptions, 123 extended PCO, 37 DNN); the encoder puts them in table order
+NasPduAcceptIes(ch, psi, pti, ies) ==
    Mk5GSM("PDUSessionEstablishmentAccept", psi, pti,
           << <<17>>, ch.qosRules, <<6, 0, 1, 6, 0, 1>> >>,
-          Opts(<< OptIf(ch.smOpt >= 1, 89, <<36>>),
+          Opts(<< OptIf(89 \in ies, 89, <<36>>),
                   [iei |-> 41, v |-> <<1>> \o ch.ip],
-                  OptIf(ch.smOpt >= 2, 86, <<32>>),
-                  OptIf(ch.smOpt >= 1, 34, (IF Len(Cfg.sd) = 3 THEN <<Cfg.sst>> \o Cfg.sd ELSE <<Cfg.sst>>)),
-                  OptIf(ch.smOpt >= 2, 128, <<1>>),
-                  OptIf(ch.smOpt >= 2, 121, ch.qosFlows),
-                  OptIf(ch.smOpt >= 2, 123, <<128, 0, 13, 4, 8, 8, 8, 8>>),
-                  OptIf(ch.smOpt >= 1, 37, <<8, 105, 110, 116, 101, 114, 110, 101, 116>>) >>))
+                  OptIf(86 \in ies, 86, <<32>>),
+                  OptIf(34 \in ies, 34, (IF Len(Cfg.sd) = 3 THEN <<Cfg.sst>> \o Cfg.sd ELSE <<Cfg.sst>>)),
+                  OptIf(128 \in ies, 128, <<1>>),
+                  OptIf(117 \in ies, 117, <<1, 5, 0, 3, 1, 2, 3>>),
+                  OptIf(120 \in ies, 120, <<3, 1, 0, 4>>),
+                  OptIf(121 \in ies, 121, ch.qosFlows),
+                  OptIf(123 \in ies, 123, <<128, 0, 13, 4, 8, 8, 8, 8>>),
+                  OptIf(37 \in ies, 37, <<8, 105, 110, 116, 101, 114, 110, 101, 116>>) >>))
+NasPduAccept(ch, psi, pti) ==
+   NasPduAcceptIes(ch, psi, pti, IF ch.smOpt = 0 THEN {} ELSE IF ch.smOpt = 1 THEN {89, 34, 37} ELSE {89, 86, 34, 128, 121, 123, 37})
 NasDlTransport(inner, psi) ==
    Mk5GMM("DLNASTransport", << <<1>>, inner >>, << [iei |-> 18, v |-> <<psi>>] >>)
 NasPduReleaseCommand(psi, pti) == Mk5GSM("PDUSessionReleaseCommand", psi, pti, << <<36>> >>, <<>>)
